@@ -4,8 +4,9 @@ CHECK = {
     "rule": "odometer over (data size, placement, checksum, order of place/sum calls, auxiliary buffer) x scenario A (reset, full store of every image of the family, validate, fetch, every partial fetch) / B (every partial store (offset,len>=1) over a reset or stored image, 3 source images) / C (every part access with offset+len = N+1, N+2 and the 9 arithmetic-overflow pairs, store_part and fetch_part) / D (every single-octet alteration of the region x {^01,^80,^ff} x 2 base images); a case is non-trivial when it reached its final oracle without a failure; outcome classes name the scenario result and, for partial stores, how the configuration chunks the read-back",
     "assumptions": [
         "data sizes up to the stated bound (small-scope); image family {00.., ff.., two ramps, one-hot at each position}",
-        "layout: the checksum sits at the placement address, the data image directly behind it (persistent-storage.c, set_data_address)",
-        "byte order of the checksum octets is not fixed by the statement: little- or big-endian accepted, alteration detection demanded relative to the order the store used",
+        "layout inside the region is not fixed by the statement: checksum before the data image (persistent-storage.c, set_data_address) or behind it, both accepted; a violation only when the stored image fits neither",
+        "byte order of the checksum octets is not fixed by the statement: little- or big-endian accepted, alteration detection demanded relative to the placement/order(s) the store of that case used",
+        "an in-range store that returns non-success on the fault-free medium is not a violation (the statement speaks about successful stores): trivial outcome class store-refused, unless the refused store changed the medium and the instance then validates an image its checksum does not cover; roundtrip-ok and all part-ok classes stay required, so a store that always fails trips the vacuity guard",
         "zero-length part accesses are not generated (the statement speaks of stores of image parts)",
         "an access outside the region is refused by the harness medium (returns 0) and never performed; ASan red zones guard the caller's buffers and the auxiliary buffer",
     ],
